@@ -132,7 +132,7 @@ type Feed struct {
 	Sentinel []byte // key of the sentinel SET
 	// SentinelCmd: command name of the sentinel (default "set"); its first argument is Sentinel.
 	SentinelCmd string
-	Timeout  time.Duration
+	Timeout     time.Duration
 	// StopAtCrash: as soon as the target crashes the tool is stopped (the process is considered dead).
 	StopAtCrash bool
 	// IdleOnly: nothing is fed; the run ends (gracefully) when Timeout expires, which is then not a time-out.
